@@ -55,6 +55,14 @@ def respond (line : String) : String :=
       match run bnbWindowDays l with
       | .error e => showMErr l e
       | .ok rs => showMatch rs
+  | "eff" :: txs =>
+    -- per security: Σ purchases (q·p + fees) and the signed amounts of the cost events that took effect
+    match parseAll parseTx? (txs.filter (· ≠ "")) with
+    | none => "bad-request"
+    | some l =>
+      let pre := preprocess l
+      "ok" ++ String.join ((tickersOf pre).map (fun t =>
+        s!" {t}:{showRat (purchasesOf (daysOf t pre))}:{showRat (effAll t [] (daysOf t pre))}"))
   | "class" :: "negativeLot" :: txs =>
     -- known-finding class D6: the cost pre-pass leaves some purchase with negative adjusted cost
     match parseAll parseTx? (txs.filter (· ≠ "")) with
